@@ -171,15 +171,15 @@ def check(ck):
 
     # ---- C02.5 error typing ---------------------------------------------------------------------------
     n5 = 0
-    for fi in prog.module_funcs(SRV):
-        for (n, c) in q.call_sites(prog, fi, lambda r, c: r == "class:jsonrpc.Fault"):
-            n5 += 1
-            code_e = kwarg(c, "code", 0)
-            msg_e = kwarg(c, "message", 1)
-            code = c05.fold_code(prog, fi, code_e) if code_e is not None else None
-            ck.require(code is not None, "C02.5", "%s: Fault #%d code" % (q.fn(fi), n5), "integer literal %s" % code,
-                       "error code is not an integer literal: %s" % (dump(code_e) if code_e is not None else "default"), q.loc(fi, n))
-            ck.require(msg_e is not None and c05.is_string_expr(msg_e), "C02.5", "%s: Fault #%d message" % (q.fn(fi), n5),
-                       "string-typed message", "error message is not a string-typed expression: %s" % (dump(msg_e) if msg_e is not None else "default"),
-                       q.loc(fi, n))
+    for site in common.fault_sites(prog):
+        n5 += 1
+        fi, n = site.fi, site.node
+        code_e = site.expr("code", 0)
+        msg_e = site.expr("message", 1)
+        code = site.code()
+        ck.require(code is not None, "C02.5", "%s: Fault #%d code" % (q.fn(fi), n5), "integer literal %s" % code,
+                   "error code is not an integer literal: %s" % (dump(code_e) if code_e is not None else "default"), q.loc(fi, n))
+        ck.require(msg_e is not None and c05.is_string_expr(msg_e), "C02.5", "%s: Fault #%d message" % (q.fn(fi), n5),
+                   "string-typed message", "error message is not a string-typed expression: %s" % (dump(msg_e) if msg_e is not None else "default"),
+                   q.loc(fi, n))
     ck.floor("C02.5", 20)
